@@ -1,49 +1,126 @@
 #!/usr/bin/env python3
-"""Run the check of the property a seeded change breaks, against /repo with the change applied, then undo it.
+"""Run the check(s) of the property a seeded change breaks against the tree with the change applied, then undo it.
 
-  tools/run_seeded.py seeded/<id> [--tier quick|thorough]   (exit 0 = the check reported a VIOLATION, i.e. caught it)
+  tools/run_seeded.py seeded/<id> [--tier quick|thorough] [--worktree] [--demo] [--props C01,C05] [--record]
 
-The change is applied with `git -C /repo apply` and undone with `git -C /repo checkout -- .` straight afterwards;
-nothing is ever committed to /repo.  If src/scenic/syntax/scenic.gram is touched, the (git-ignored) generated
-parser.py is left alone: checks that depend on the grammar regenerate the parser into a scratch directory themselves.
+default     : the change is applied to /repo itself (`git -C /repo apply`) and undone straight afterwards
+              (`git -C /repo checkout -- .`); nothing is ever committed to /repo.
+--worktree  : the change is applied in a scratch worktree under /tmp (removed afterwards) and the checks run with
+              SCENIC_REPO pointing at it (use this while other work needs /repo unchanged).
+--demo      : first run the change's own demonstration on the unchanged and on the changed tree (expects PASS / FAIL).
+--record    : write the outcome to seeded/RESULTS.json (used by tools/mkdesign.py).
+exit 0 = at least one check reported a VIOLATION (the change was caught), 1 = missed, 2 = could not run.
+
+Afterwards every check that ran is run once more on the unchanged tree, which restores lean/ScenicModel/Gen/* and the
+evidence files to /repo's.  src/scenic/syntax/parser.py (git-ignored) is rebuilt by the checks themselves whenever it is
+older than scenic.gram.
 """
 import json
 import os
+import shutil
 import subprocess
 import sys
+import time
 
 ROOT = os.path.dirname(os.path.dirname(os.path.abspath(__file__)))
+KEEP = ("VIOLATION", "KNOWN-FINDING", "OK ", "INFRA", "  violation detail")
+
+
+def sh(*a, **k):
+    return subprocess.run(list(a), capture_output=True, text=True, **k)
+
+
+def run_demo(d, meta, tree):
+    demo = os.path.join(d, meta.get("demo", "demo.py"))
+    if not os.path.exists(demo):
+        return None
+    env = dict(os.environ, PYTHONPATH=os.path.join(tree, "src"), PYTHONDONTWRITEBYTECODE="1")
+    r = sh("/venv/bin/python", demo, env=env, cwd=d, timeout=1800)
+    return r.returncode, (r.stdout + r.stderr)[-400:]
 
 
 def main():
-    d = os.path.abspath(sys.argv[1])
-    tier = sys.argv[sys.argv.index("--tier") + 1] if "--tier" in sys.argv else "quick"
+    args = sys.argv[1:]
+    d = os.path.abspath(args[0])
+    sid = os.path.basename(d)
+    tier = args[args.index("--tier") + 1] if "--tier" in args else "quick"
     meta = json.load(open(os.path.join(d, "meta.json")))
     props = meta["property"] if isinstance(meta["property"], list) else [meta["property"]]
+    if "--props" in args:
+        props = args[args.index("--props") + 1].split(",")
     patch = os.path.join(d, "patch.diff")
-    st = subprocess.run(["git", "-C", "/repo", "status", "--porcelain", "--untracked-files=no"], capture_output=True, text=True)
-    if st.stdout.strip():
-        print("refusing: /repo has uncommitted changes:\n" + st.stdout)
-        return 2
-    subprocess.run(["git", "-C", "/repo", "apply", "--check", patch], check=True)
-    subprocess.run(["git", "-C", "/repo", "apply", patch], check=True)
-    caught = {}
+    use_wt = "--worktree" in args
+    tree = "/repo"
+    if use_wt:
+        tree = f"/tmp/seeded-wt-{sid}"
+        sh("git", "-C", "/repo", "worktree", "remove", "--force", tree)
+        r = sh("git", "-C", "/repo", "worktree", "add", "--detach", tree, "HEAD")
+        if r.returncode != 0:
+            print("cannot create worktree:", r.stderr)
+            return 2
+    else:
+        st = sh("git", "-C", "/repo", "status", "--porcelain", "--untracked-files=no")
+        if st.stdout.strip():
+            print("refusing: /repo has uncommitted changes:\n" + st.stdout)
+            return 2
+    out = {"tier": tier, "checks": {}, "when": time.strftime("%Y-%m-%d %H:%M")}
     try:
+        if "--demo" in args:
+            out["demo_unchanged"] = run_demo(d, meta, tree)
+        r = sh("git", "-C", tree, "apply", "--check", patch)
+        if r.returncode != 0:
+            print("patch does not apply:", r.stderr)
+            return 2
+        sh("git", "-C", tree, "apply", patch)
+        gram = os.path.join(tree, "src/scenic/syntax/scenic.gram")
+        if os.path.exists(gram):
+            os.utime(gram) if "scenic.gram" in open(patch).read() else None
+        if "--demo" in args:
+            pp = os.path.join(tree, "src/scenic/syntax/parser.py")
+            if "scenic.gram" in open(patch).read() and os.path.exists(pp):
+                os.remove(pp)
+            out["demo_changed"] = run_demo(d, meta, tree)
+        env = dict(os.environ, SCENIC_REPO=tree)
         for p in props:
-            r = subprocess.run([os.path.join(ROOT, "check"), p, "--tier", tier], capture_output=True, text=True, cwd=ROOT)
-            lines = [l for l in r.stdout.splitlines() if l.startswith(("VIOLATION", "KNOWN-FINDING", "OK ", "INFRA", "  violation detail"))]
-            caught[p] = (r.returncode, lines)
-            print(f"== {os.path.basename(d)} vs {p}: exit {r.returncode}")
+            t0 = time.time()
+            r = sh(os.path.join(ROOT, "check"), p, "--tier", tier, cwd=ROOT, env=env)
+            lines = [l for l in r.stdout.splitlines() if l.startswith(KEEP)]
+            viol = [l for l in lines if l.startswith("VIOLATION")]
+            out["checks"][p] = {"exit": r.returncode, "wall_s": round(time.time() - t0),
+                                "violations": viol[:4],
+                                "detail": [l[:400] for l in lines if l.startswith("  violation detail")][:3],
+                                "concrete_input": any("no-failing-input-found" not in v for v in viol)}
+            print(f"== {sid} vs {p}: exit {r.returncode}")
             for l in lines[:8]:
                 print("   ", l[:300])
     finally:
-        subprocess.run(["git", "-C", "/repo", "checkout", "--", "."], check=True)
-        # restore generated Lean data / evidence to the unchanged tree's
-        for p in props:
-            subprocess.run([os.path.join(ROOT, "check"), p, "--tier", "quick"], capture_output=True, text=True, cwd=ROOT)
-    ok = any(rc == 1 for rc, _ in caught.values())
-    print("CAUGHT" if ok else "MISSED")
-    return 0 if ok else 1
+        if use_wt:
+            sh("git", "-C", "/repo", "worktree", "remove", "--force", tree)
+            shutil.rmtree(tree, ignore_errors=True)
+        else:
+            sh("git", "-C", "/repo", "checkout", "--", ".")
+            gram = "/repo/src/scenic/syntax/scenic.gram"
+            if "scenic.gram" in open(patch).read():
+                os.utime(gram)
+        env = dict(os.environ, SCENIC_REPO="/repo")
+        for p in out["checks"]:
+            sh(os.path.join(ROOT, "check"), p, "--tier", "quick", cwd=ROOT, env=env)
+    caught = [p for p, c in out["checks"].items() if c["exit"] == 1]
+    out["caught"] = bool(caught)
+    parts = []
+    for p, c in out["checks"].items():
+        if c["exit"] == 1:
+            parts.append(f"{p}: VIOLATION ({'concrete failing input' if c['concrete_input'] else 'no-failing-input-found'})")
+        else:
+            parts.append(f"{p}: not caught (exit {c['exit']})")
+    out["summary"] = "; ".join(parts)
+    if "--record" in args:
+        path = os.path.join(ROOT, "seeded", "RESULTS.json")
+        res = json.load(open(path)) if os.path.exists(path) else {}
+        res[sid] = out
+        json.dump(res, open(path, "w"), indent=1, sort_keys=True)
+    print("CAUGHT" if caught else "MISSED", "-", out["summary"])
+    return 0 if caught else 1
 
 
 if __name__ == "__main__":
